@@ -65,6 +65,32 @@ class Gen:
         st.append(S('adv', d=odd(rng, T)))
         return dict(run=run, cfg=cfg, steps=st, tag='sender')
 
+    # ---- C03/C05/C09: several senders in scaled real time (contention on the sequence mutex) ----
+    def senders_rt(self, run, nsenders=None, n=30, reconnect=False):
+        rng = self.rng
+        R, T = rng.choice([(20_000, 100_000), (15_000, 70_000)])
+        cfg = dict(R=R, T=T, H=BIGH, mode='real', q=1500, slack=12_000)
+        k = nsenders or rng.choice([2, 2, 3, 4, 8])
+        st = [S('connect'), S('reader', act='on')]
+        for _ in range(n):
+            c = rng.random()
+            if c < 0.40:
+                st.append(S('send', g=rng.randrange(1, k + 1), p=self.newpid()))
+            elif c < 0.62:
+                st.append(S('flush', n=1))
+            elif c < 0.70:
+                st.append(S('net', dir=rng.choice(['c2g', 'g2c']), i=rng.randrange(3), act=rng.choice(['lose', 'dup', 'deliver'])))
+            elif c < 0.80:
+                st.append(S('gwtele', p=self.newpid()))
+            elif c < 0.93:
+                st.append(S('adv', d=rng.choice([R // 4, R // 2, R, 2 * R])))
+            elif reconnect:
+                st += [S('gwpolicy', s='nextchan', n=rng.choice([1, 2, 3])), S('gwgiveup'), S('flush', n=1), S('adv', d=R // 3), S('flush', n=2)]
+            else:
+                st.append(S('adv', d=T // 2))
+        st += [S('flush', n=2), S('adv', d=T + R), S('flush', n=2), S('adv', d=T + R), S('flush', n=1)]
+        return dict(run=run, cfg=cfg, steps=st, tag='senders-rt')
+
     # ---- C04: receiver -----------------------------------------------------
     def receiver(self, run, n=50, wrap=None, tcp=False, group=False):
         rng = self.rng
